@@ -67,10 +67,14 @@ structure Fixes where
   /-- `tickit_term_resume` ends with `chpen(driver, tt->pen, tt->pen)`: the cached pen is sent again after the
       `CSI m` of `tickit_term_pause` (`fixes/C12_pause_pen.patch`, found by the C12 engine). -/
   resumeResendsPen : Bool
+  /-- the one-line ICH/DCH path of `scrollrect` returns `false` when the right margin it needs would be column 1
+      (`if(right < term_cols && right < 2) return false;`, `fixes/C09_scroll_one_cell.patch`): `CSI ;1 s` would be
+      ignored and ICH/DCH would shift the whole line. -/
+  scrollCellGuard : Bool
 deriving DecidableEq, Repr, Inhabited
 
 /-- The code as found in the unchanged tree. -/
-def Fixes.none : Fixes := ⟨false, false, false, false⟩
+def Fixes.none : Fixes := ⟨false, false, false, false, false⟩
 
 /-- `printf` restricted to `%d`: the format strings of the source, instantiated. -/
 def fmt : List UInt8 → List Int → List UInt8
@@ -130,6 +134,8 @@ def scrollrect (fx : Fixes) (caps : Caps) (termCols : Int) (rect : Rect) (downwa
   else
     let right := rect.right
     if ((caps.slrm ∧ rect.lines = 1) ∨ right = termCols) ∧ downward = 0 then
+      if fx.scrollCellGuard ∧ right < termCols ∧ right < 2 then (false, [])
+      else
       (true,
         (if right < termCols then csi ([0x3b] ++ showInt right ++ [0x73]) else []) ++
         ((List.range rect.lines.toNat).flatMap fun (i : Nat) => scrollLine (rect.top + (i : Int)) rect.left rightward) ++
